@@ -2,9 +2,7 @@
 """Regenerates /verif/MANIFEST.json from the rule modules present in rules/ (one check per Cxx.py)."""
 import json, os, sys, importlib
 sys.path.insert(0, '/verif/rules')
-NA = {
- 'C16': 'route validity is an arithmetic post-condition over arbitrary graphs and amounts computed by one ~1300-line Dijkstra body; no structural necessary condition exists that is both genuine and robust to behaviour-preserving edits (DESIGN.md section 5)',
-}
+NA = {}
 NOT_BUILT = 'static check for this property is not built yet (planned rule table in DESIGN.md section 4); not claimed until it runs'
 TECH = {}
 props = [json.loads(l)['id'] for l in open('/verif/properties.jsonl')]
